@@ -323,7 +323,7 @@ var targets = []Target{
 		}},
 	{Func: "Relayer.finishRelayItem", Out: "relayFinishPending", File: "GenClose2", Soft: true,
 		Params: "(ok : bool) (isOriginator : bool) (pending : Z)", Ret: "Z",
-		Stmt: "item, ok := items.Delete(id)", After: true, Rest: "pending", NakedRetW: "pending",
+		Stmt: "item, ok := items.deleteCall(id, lookedUp)", After: true, Rest: "pending", NakedRetW: "pending",
 		Hints: map[string]string{"item.isOriginator": "isOriginator"},
 		SHints: map[string]string{
 			"item.call.End()":      "",
